@@ -238,7 +238,16 @@ impl<'a> G01<'a> {
         }
         match ty {
             Ty::Int => int(self.small_int()),
-            Ty::Small => int(self.rng.range(0, 6)),
+            Ty::Small => {
+                // mostly tiny; one in ten is a recursion depth / iteration count at which a
+                // non-tail recursion crosses a doubling of the stack (256, 512, 1024, 2048 slots)
+                if self.rng.chance(1, 10) {
+                    let (lo, hi) = *self.rng.pick(&[(25i64, 45i64), (25, 45), (55, 75), (110, 140), (240, 270)]);
+                    int(self.rng.range(lo, hi))
+                } else {
+                    int(self.rng.range(0, 6))
+                }
+            }
             Ty::Bool => Sx::Bool(self.rng.chance(1, 2)),
             Ty::Sym => quote(sym(self.rng.pick_str(&SYMS))),
             Ty::Char => Sx::Char(*self.rng.pick(&CHARS)),
